@@ -286,3 +286,7 @@ func (v *VerifC08Node) UserSnapshot(opt SnapshotOption) (index uint64, outcome s
 		panic("verif: the snapshot request got no result")
 	}
 }
+
+// SnapshotStateIndex reads snapshotState.snapshotIndex (what node.doSave compares the
+// applied index with).
+func (v *VerifC08Node) SnapshotStateIndex() uint64 { return v.n.ss.getIndex() }
